@@ -505,3 +505,26 @@ contract(Contract(
         ('        result.insert(0, "-")', '        result.append("-")', ["C17"]),
     ],
 ))
+
+
+# --------------------------------------------------------------------------- _needs_file_resolution
+contract(Contract(
+    target=M + ":_needs_file_resolution",
+    props=["C17", "C15"],
+    params={"files": "list[str]"},
+    types={"f": "str"},
+    calls={"Path": Callee("uf", ret="ref:Path", sig=["p"]),
+           "Path.is_dir": Callee("uf", ret="bool", sig=["self"])},
+    defs={"needs(x)": "x != '-' and (call('Path.is_dir', call('Path', x)) or ('*' in x) or ('?' in x) or ('[' in x))"},
+    loops={0: Loop(inv={"none_so_far": "all(not needs(files[k]) for k in range(_i))"}, decreases="len(files) - _i")},
+    ensures={
+        # C15 / C17: plain file arguments (however many, in whatever order) are never sent through the resolver -- which would
+        # sort them, drop oversized ones and apply force_exclude; only a directory or a glob among the arguments does that
+        "true_only_for_directory_or_glob": "implies(result, needs(f))",
+        "false_means_none": "implies(not result, all(not needs(files[k]) for k in range(len(files))))",
+    },
+    canaries=[
+        ('        if f == "-":\n            continue\n', "", None, ["none_so_far", "post["]),
+        ("        if Path(f).is_dir():\n            return True\n", "", None, ["none_so_far", "post["]),
+    ],
+))
